@@ -130,12 +130,15 @@ Definition alloc_slot (cmin : N) (st : alloc_state) (idx : nat) (cap : N) : allo
   {| a_heap := h'; a_locs := setZ (a_locs st) idx (Z.of_N loc); a_caps := setN (a_caps st) idx cap;
      a_ref := a_ref st; a_ok := a_ok st |}.
 
-Definition op_alloc (stems : list Z) (caps : list N) (cmin : N) (stf : alloc_state * list Z) (o : sop)
+Definition op_alloc (tmp : nat) (stems : list Z) (caps : list N) (cmin : N) (stf : alloc_state * list Z) (o : sop)
   : alloc_state * list Z :=
   let '(st, fs) := stf in
   let opnds := map (stemmed stems) [s_i0 o; s_i1 o; s_i2 o; s_i3 o] in
   let ref' := fold_left (fun r k => addZ r k (-1)%Z) opnds (a_ref st) in
   let fs' := fold_left (fun f k => if (nth k ref' 0%Z <=? 0)%Z then set_add (nth k (a_locs st) (-1)%Z) f else f) opnds fs in
+  if Nat.eqb (s_out o) tmp then
+    ({| a_heap := a_heap st; a_locs := a_locs st; a_caps := a_caps st; a_ref := ref'; a_ok := a_ok st |}, fs')
+  else
   match nth_error caps (s_out o) with
   | None => ({| a_heap := a_heap st; a_locs := a_locs st; a_caps := a_caps st; a_ref := ref'; a_ok := false |}, fs')
   | Some cp =>
@@ -143,9 +146,9 @@ Definition op_alloc (stems : list Z) (caps : list N) (cmin : N) (stf : alloc_sta
       (alloc_slot cmin st1 (s_out o) (N.max cmin cp), fs')
   end.
 
-Definition level_alloc (stems : list Z) (caps : list N) (cmin : N) (reuse : bool) (st : alloc_state) (lv : list sop)
+Definition level_alloc (tmp : nat) (stems : list Z) (caps : list N) (cmin : N) (reuse : bool) (st : alloc_state) (lv : list sop)
   : alloc_state :=
-  let '(st1, fs) := fold_left (op_alloc stems caps cmin) lv (st, []) in
+  let '(st1, fs) := fold_left (op_alloc tmp stems caps cmin) lv (st, []) in
   if reuse then
     fold_left (fun s loc =>
         match (if (0 <=? loc)%Z then free (a_heap s) (Z.to_N loc) else None) with
@@ -183,7 +186,7 @@ Definition build (c : netlist) (caps : list N) (cmin : N) (reuse strip : bool) :
                     | Some l0 :: _ => pinref sta (stemmed stems l0)
                     | None :: _ => {| a_heap := a_heap sta; a_locs := a_locs sta; a_caps := a_caps sta; a_ref := a_ref sta; a_ok := false |}
                     end) (combine (seq 0 slen) sn) st4 in
-      let st6 := fold_left (level_alloc stems caps cmin reuse) (split_levels starts ops 0) st5 in
+      let st6 := fold_left (level_alloc tmp stems caps cmin reuse) (split_levels starts ops 0) st5 in
       (* copy location and capacity from stems to fan-out lines *)
       let '(locs7, caps7) := fold_left (fun (lc : list Z * list N) (i : nat) =>
                     let s := nth i stems (-1)%Z in
